@@ -301,9 +301,9 @@ def vector_body(c):
 
 
 PROP = Prop("C08", [
-    Test("nested_d3", partial(body, 3), quick=1500, thorough=20000, shard_size=150),
-    Test("nested_d4", partial(body, 4), quick=800, thorough=12000, shard_size=100),
-    Test("vector", vector_body, quick=400, thorough=4000, shard_size=100),
+    Test("nested_d3", partial(body, 3), quick=4000, thorough=20000, shard_size=150),
+    Test("nested_d4", partial(body, 4), quick=2500, thorough=12000, shard_size=100),
+    Test("vector", vector_body, quick=1000, thorough=4000, shard_size=100),
 ], RULE, assumptions=[
     "reference symbolic differentiator (vh/refs/symbolic.py) is correct; it shares no code with autograd",
     "scalar expression programs plus one family of vector-valued nestings; nesting depth <= 4-5",
